@@ -450,3 +450,159 @@ Proof.
   replace ((1 - (1 + (3 + 0)) / (1 + 1)) * (1 - (1 + (3 + 0)) / (1 + 1)) + ((3 - (1 + (3 + 0)) / (1 + 1)) * (3 - (1 + (3 + 0)) / (1 + 1)) + 0))%R with (1 * (1+1))%R by field.
   unfold Rdiv. rewrite Rmult_assoc, Rinv_r by lra. rewrite Rmult_1_r. apply sqrt_1.
 Qed.
+
+(* ------------------------------------------------------------------ arbitrary custom functions on datasets with several variables *)
+Lemma view_padded {A} (f : A -> option R) (l : list A) k :
+  map (cell_view f) (map Some l ++ repeat None k) = map f l ++ repeat None k.
+Proof.
+  rewrite map_app, map_map. f_equal. induction k as [|k IH]; [reflexivity|]. cbn [repeat map cell_view]. f_equal. exact IH.
+Qed.
+
+Lemma lookup_collapse_vars {A} (f : A -> option R) (d : A) refrow otherrow (vars : dict (list A)) custom v :
+  lookup v (collapse_vars f d refrow otherrow vars custom)
+  = option_map (fun vals => collapse_var f d refrow otherrow vals custom) (lookup v vars).
+Proof.
+  unfold collapse_vars. induction vars as [|[k x] t IH]; [reflexivity|].
+  cbn [map lookup fst snd]. destruct (String.eqb v k); [reflexivity|exact IH].
+Qed.
+
+Lemma collapse_custom_function_l {A} (f : A -> option R) (d : A) refrow otherrow n (vars : dict (list A))
+    (custom : dict collapser) v vals name (g : collapser) c :
+  length refrow = length otherrow -> row_ok n refrow -> c < n ->
+  lookup v vars = Some vals -> lookup name custom = Some g ->
+  field_of v name c (collapse_vars f d refrow otherrow vars custom) = Some (g (padded_column f d refrow otherrow vals c)) /\
+  (forall vars', lookup v vars' = Some vals ->
+     field_of v name c (collapse_vars f d refrow otherrow vars' custom)
+     = field_of v name c (collapse_vars f d refrow otherrow vars custom)).
+Proof.
+  intros Hl Hok Hc Hv Hg.
+  assert (K : forall vs, lookup v vs = Some vals ->
+     field_of v name c (collapse_vars f d refrow otherrow vs custom) = Some (g (padded_column f d refrow otherrow vals c))).
+  { intros vs Hvs. unfold field_of. rewrite lookup_collapse_vars, Hvs. cbn [option_map].
+    rewrite (field_collapse_var f d refrow otherrow vals custom name g n c Hl Hok Hc) by (rewrite Hg; reflexivity).
+    destruct (collapse_exact_l d refrow otherrow vals n c Hl Hok Hc) as [E _]. rewrite E, view_padded. reflexivity. }
+  split; [apply K; exact Hv|]. intros vars' Hv'. rewrite (K vars' Hv'), (K vars Hv). reflexivity.
+Qed.
+
+(* a function that ignores NaN sees the non-NaN partner values only *)
+Lemma somes_padded {A} (f : A -> option R) (d : A) refrow otherrow (vals : list A) c :
+  somes (padded_column f d refrow otherrow vals c) = somes (map f (gather d (partner_points refrow otherrow c) vals)).
+Proof.
+  unfold padded_column. rewrite somes_app.
+  assert (E : forall k, somes (repeat (@None R) k) = []) by (induction k as [|k IH]; [reflexivity|exact IH]).
+  rewrite E. apply app_nil_r.
+Qed.
+
+Lemma nth_padded {X} (l : list (option X)) m k : nth k (l ++ repeat None m) None = nth k l None.
+Proof.
+  destruct (Nat.lt_ge_cases k (length l)) as [H|H].
+  - apply app_nth1. exact H.
+  - rewrite app_nth2 by exact H. rewrite (nth_overflow l) by exact H.
+    destruct (Nat.lt_ge_cases (k - length l) m) as [H'|H'].
+    + apply nth_repeat_lt. exact H'.
+    + apply nth_overflow. rewrite repeat_length. exact H'.
+Qed.
+
+Lemma last_padded {X} (l : list (option X)) m : last (l ++ repeat None m) None = match m with 0 => last l None | _ => None end.
+Proof.
+  destruct m as [|m]; [cbn [repeat]; rewrite app_nil_r; reflexivity|].
+  replace (repeat (@None X) (S m)) with (repeat (@None X) m ++ [None]).
+  - rewrite app_assoc. apply last_last.
+  - clear. induction m as [|m IH]; [reflexivity|]. cbn [repeat app]. f_equal. exact IH.
+Qed.
+
+Lemma partner_points_length refrow otherrow c :
+  length refrow = length otherrow -> length (partner_points refrow otherrow c) = cnt c refrow.
+Proof.
+  intros Hl. unfold partner_points. change (length (partners refrow otherrow c) = cnt c refrow).
+  apply partners_length. exact Hl.
+Qed.
+
+(* slot k of the bin: the (k+1)-th partner in the order of the pair list, NaN when there are fewer partners *)
+Lemma collapse_slot_l {A} (f : A -> option R) (d : A) refrow otherrow n (vars : dict (list A))
+    (custom : dict collapser) v vals name k c :
+  length refrow = length otherrow -> row_ok n refrow -> c < n ->
+  lookup v vars = Some vals -> lookup name custom = Some (slot k) ->
+  let pp := partner_points refrow otherrow c in
+  field_of v name c (collapse_vars f d refrow otherrow vars custom)
+  = Some (Fl (if k <? length pp then f (nth (nth k pp 0) vals d) else None)) /\
+  length pp = cnt c refrow /\ 0 < length pp.
+Proof.
+  intros Hl Hok Hc Hv Hg pp.
+  destruct (collapse_custom_function_l f d refrow otherrow n vars custom v vals name (slot k) c Hl Hok Hc Hv Hg) as [E _].
+  assert (Hlen : length pp = cnt c refrow) by (apply partner_points_length; exact Hl).
+  split; [|split; [exact Hlen|]].
+  - rewrite E. unfold slot, padded_column. rewrite nth_padded. f_equal. f_equal. fold pp.
+    destruct (k <? length pp) eqn:Hk.
+    + apply Nat.ltb_lt in Hk. unfold gather. rewrite map_map.
+      rewrite (nth_indep _ None ((fun i => f (nth i vals d)) 0)) by (rewrite map_length; exact Hk).
+      apply (map_nth (fun i => f (nth i vals d))).
+    + apply Nat.ltb_ge in Hk. apply nth_overflow. unfold gather. rewrite !map_length. exact Hk.
+  - pose proof (partner_points_nonempty refrow otherrow n c Hl Hok Hc) as Hne. fold pp in Hne.
+    destruct pp; [congruence|cbn; lia].
+Qed.
+
+(* the last slot holds a value only for the reference points with the largest number of partners *)
+Lemma collapse_last_slot_l {A} (f : A -> option R) (d : A) refrow otherrow n (vars : dict (list A))
+    (custom : dict collapser) v vals name c :
+  length refrow = length otherrow -> row_ok n refrow -> c < n ->
+  lookup v vars = Some vals -> lookup name custom = Some last_slot ->
+  let pp := partner_points refrow otherrow c in
+  let h := S (list_max (rows_for refrow)) in
+  length pp <= h /\
+  field_of v name c (collapse_vars f d refrow otherrow vars custom)
+  = Some (Fl (if length pp =? h then f (nth (last pp 0) vals d) else None)).
+Proof.
+  intros Hl Hok Hc Hv Hg pp h.
+  destruct (collapse_custom_function_l f d refrow otherrow n vars custom v vals name last_slot c Hl Hok Hc Hv Hg) as [E _].
+  assert (Hlen : length pp = cnt c refrow) by (apply partner_points_length; exact Hl).
+  assert (Hv' : length (gather d otherrow vals) = length refrow) by (unfold gather; rewrite map_length; lia).
+  destruct (bins_exact_l refrow (gather d otherrow vals) n c Hv' Hok Hc) as (_ & _ & Hpos & Hle).
+  fold h in Hle. split; [lia|].
+  rewrite E. unfold last_slot, padded_column. rewrite last_padded. fold pp. fold h. rewrite <- Hlen.
+  pose proof (partner_points_nonempty refrow otherrow n c Hl Hok Hc) as Hne. fold pp in Hne.
+  destruct (length pp =? h) eqn:Eh.
+  - apply Nat.eqb_eq in Eh. replace (h - length pp) with 0 by lia. f_equal. f_equal.
+    unfold gather. rewrite map_map.
+    destruct (exists_last Hne) as (q & x & Eq). rewrite Eq. rewrite map_app. cbn [map]. rewrite !last_last. reflexivity.
+  - apply Nat.eqb_neq in Eh. destruct (h - length pp) eqn:Ed; [lia|reflexivity].
+Qed.
+
+Lemma nonvacuous_views_l :
+  let refrow := [0; 0; 1; 2; 1; 0] in
+  let otherrow := [0; 1; 0; 0; 2; 2] in
+  let vars := [("t"%string, [Some 5; Some 6; Some 7]%R); ("p"%string, [Some 1; None; Some 3]%R)] in
+  let custom := [("first"%string, slot 0); ("mid"%string, slot 1); ("last"%string, last_slot)] in
+  let res := collapse_vars (fun a : option R => a) None refrow otherrow vars custom in
+  length refrow = length otherrow /\ row_ok 3 refrow /\
+  map (partner_points refrow otherrow) [0; 1; 2] = [[0; 1; 2]; [0; 2]; [0]] /\
+  S (list_max (rows_for refrow)) = 3 /\
+  (* first = the partner of the pair with the lowest position; every variable shows its own values *)
+  field_of "t" "first" 0 res = Some (Fl (Some 5%R)) /\ field_of "p" "first" 0 res = Some (Fl (Some 1%R)) /\
+  field_of "t" "first" 1 res = Some (Fl (Some 5%R)) /\ field_of "t" "first" 2 res = Some (Fl (Some 5%R)) /\
+  (* slot 1: the second partner (a NaN in the data shows as NaN), padding for the reference point with one partner *)
+  field_of "t" "mid" 0 res = Some (Fl (Some 6%R)) /\ field_of "p" "mid" 0 res = Some (Fl None) /\
+  field_of "t" "mid" 1 res = Some (Fl (Some 7%R)) /\ field_of "t" "mid" 2 res = Some (Fl None) /\
+  (* the last slot: a value only for the reference point with the most partners *)
+  field_of "t" "last" 0 res = Some (Fl (Some 7%R)) /\ field_of "p" "last" 0 res = Some (Fl (Some 3%R)) /\
+  field_of "t" "last" 1 res = Some (Fl None) /\
+  (* the defaults are still there *)
+  field_of "p" "number" 0 res = Some (Cnt 2).
+Proof.
+  cbv zeta. split; [reflexivity|]. split; [apply row_okb_iff; vm_compute; reflexivity|].
+  repeat split; vm_compute; reflexivity.
+Qed.
+
+(* a custom function that ignores NaN (g = g' o somes: nanmax, nansum, a median of the valid values ...) returns g' of the
+   non-NaN values of the partner points *)
+Lemma collapse_custom_nan_ignoring_l {A} (f : A -> option R) (d : A) refrow otherrow n (vars : dict (list A))
+    (custom : dict collapser) v vals name (g : collapser) (g' : list R -> out) c :
+  length refrow = length otherrow -> row_ok n refrow -> c < n ->
+  lookup v vars = Some vals -> lookup name custom = Some g -> (forall l, g l = g' (somes l)) ->
+  field_of v name c (collapse_vars f d refrow otherrow vars custom)
+  = Some (g' (somes (map f (gather d (partner_points refrow otherrow c) vals)))).
+Proof.
+  intros Hl Hok Hc Hv Hg Hi.
+  destruct (collapse_custom_function_l f d refrow otherrow n vars custom v vals name g c Hl Hok Hc Hv Hg) as [E _].
+  rewrite E, Hi, somes_padded. reflexivity.
+Qed.
